@@ -507,6 +507,75 @@ def d1_leg_direction(F, r):
         raise AnchorError(f"only {n} rank-resolved leg queries")
 
 
+# ---- K3 load type agreement (pragmatic) -----------------------------------------------------------
+LOAD_SITES = ("set_job_demand", "set_vehicle_capacity", "new", "build", "create_capacity_with_reload_feature", "create_max_load_balanced_feature")
+
+
+def _multi_switches(F, fid):
+    """switch blocks of fn that test the multi-dimensional-capacity predicate: {block: (true_target, false_target)}"""
+    fn = F.fns[fid]
+    out = {}
+    for sb, bb in enumerate(fn["bbs"]):
+        tt = bb["t"]
+        if tt["k"] != "switch" or not mir.is_place(tt["o"]):
+            continue
+        hit = False
+        for k, v, p in mir.trace(fn, tt["o"]):
+            if "has_multi_dimen_capacity" in p:
+                hit = True
+            elif k == "arg" and not p:
+                # a bool parameter fed with the property by every caller
+                callers = [(c, t) for (c, kind, bi, t) in cg.callers(F, F.root_of(fid)) if t is not None and v - 1 < len(t["args"])]
+                def fed(c, a):
+                    cf = F.fns[c]
+                    for k2, v2, p2 in mir.trace(cf, a):
+                        if "has_multi_dimen_capacity" in p2:
+                            return True
+                        if k2 in ("arg", "local") and "multi_dimen" in (cf["names"].get(str(v2)) or ""):
+                            return True
+                        if k2 == "arg" and v2 == 1 and p2 and p2[0].isdigit() and int(p2[0]) < len(cf.get("upvars", [])) and "multi_dimen" in cf["upvars"][int(p2[0])][0]:
+                            return True
+                    return False
+                if fid == F.root_of(fid) and callers and all(fed(c, t["args"][v - 1]) for c, t in callers):
+                    hit = True
+        if hit:
+            f_ = [tb for v_, tb in tt["tg"] if v_ == 0]
+            if f_:
+                out[sb] = (tt["else"], f_[0])
+    return out
+
+
+def k3_load_types(F, r):
+    n = 0
+    for fid, fn in F.fns.items():
+        if not fid.lstrip("<").startswith("vrp_pragmatic::format::problem") or "::promoted[" in fid:
+            continue
+        sites = []
+        for bi, t in mir.calls(fn):
+            ga = " ".join(t["ga"])
+            if t["callee"].split("::")[-1] in LOAD_SITES and ("::MultiDimLoad" in ga or "::SingleDimLoad" in ga):
+                sites.append((bi, t, "multi" if "::MultiDimLoad" in ga else "single"))
+        if not sites:
+            continue
+        sw = _multi_switches(F, fid)
+        for bi, t, kind in sites:
+            n += 1
+            inst = f"{util.short_fn(fid)}: {t['callee'].split('::')[-1]}<{kind}>"
+            if not sw:
+                r.fail(inst, "load type is chosen without testing has_multi_dimen_capacity: demand, capacity and capacity feature can disagree on the load type (the constraint then reads `None` and never binds)", F.loc(fid, t["ln"]))
+                continue
+            # the multi instantiation must only be reachable through the true edge, the single one through the false edge
+            wrong_edges = [(sb, (tgt_f if kind == "multi" else tgt_t)) for sb, (tgt_t, tgt_f) in sw.items()]
+            right_edges = [(sb, (tgt_t if kind == "multi" else tgt_f)) for sb, (tgt_t, tgt_f) in sw.items()]
+            if bi in mir.reach(fn, [0], blocked_edges=right_edges):
+                r.fail(inst, f"the {kind}-dimensional load type is used on the branch where has_multi_dimen_capacity is {'false' if kind == 'multi' else 'true'}: "
+                             "demand/capacity dimensions are written with another type than the capacity feature reads", F.loc(fid, t["ln"]))
+            else:
+                r.ok(inst, f"selected by has_multi_dimen_capacity == {'true' if kind == 'multi' else 'false'}")
+    if n < 10:
+        raise AnchorError(f"only {n} load-typed sites found in the pragmatic reader")
+
+
 # ---- R1 relaxed goals never escape ---------------------------------------------------------------
 IC_ADT = H + "context::InsertionContext"
 PROBLEM_AGG = "vrp_core::models::domain::Problem#Problem"
@@ -772,6 +841,7 @@ def run(ctx):
     ctx.run("C01-G2", "route-level gate: public evaluator entries reach the insertion analysis only through the None edge of goal.evaluate(route move)", g2_route_gate, floor=2)
     ctx.run("C01-G3", "InsertionSuccess is built only from an evaluated feasible position (make_success callers gated; copies only)", g3_success_construction, floor=12)
     ctx.run("C01-G4", "only confirmed modules insert activities into tours / obtain mutable activity access", g4_who_may_insert, floor=12)
+    ctx.run("C01-K3", "pragmatic reader: demand, capacity and capacity features pick the load type by the same predicate", k3_load_types, floor=10)
     ctx.run("C01-R1", "relaxed / amended goals never escape: original problem re-assigned on every path, or every individual recovered through repair", r1_relaxed_goal, floor=5)
     ctx.run("C01-A1", "goal assembly: every hard constraint is pushed into the goal's feature list under its own input-derived property", a1_goal_assembly, floor=20)
     ctx.run("C01-D1", "routing legs are queried in travel direction (prev -> target -> next)", d1_leg_direction, floor=4)
